@@ -327,7 +327,7 @@ func safeUnmarshal(b []byte, v any) (err error, panicked any) {
 
 func c15roundtrip(c *evid.Ctx) {
 	r := c.R.Fork("roundtrip")
-	n := c.Scale(20000, 600000)
+	n := c.Scale(20000, 300000)
 	for i := 0; i < n; i++ {
 		m, class := genMsg(r)
 		c.Eval(1)
@@ -426,7 +426,7 @@ func c15bytes(c *evid.Ctx) {
 	r := c.R.Fork("bytes")
 	g := &hostile.Gen{R: r, Costly: 2, Corpus: hostile.LoadCorpus(filepath.Join(repoDir(), "krpc/testdata/fuzz/Fuzz"))}
 	c.Count("seed corpus entries loaded", len(g.Corpus))
-	n := c.Scale(200000, 4000000)
+	n := c.Scale(200000, 2000000)
 	for i := 0; i < n; i++ {
 		b, sig := g.Next()
 		if len(b) > 70000 {
